@@ -16,11 +16,15 @@ import (
 // intervening store to that path are the same value; the rules only compare paths.
 
 type flow struct {
-	p     *Prog
-	depth int
+	p        *Prog
+	depth    int
+	visiting map[*ssa.Phi]bool
+	cyclic   map[*ssa.Phi]bool
 }
 
-func (p *Prog) path(v ssa.Value) string { return (&flow{p: p}).path(v, 0) }
+func (p *Prog) path(v ssa.Value) string {
+	return (&flow{p: p, visiting: map[*ssa.Phi]bool{}, cyclic: map[*ssa.Phi]bool{}}).path(v, 0)
+}
 
 func paramIndex(pa *ssa.Parameter) int {
 	f := pa.Parent()
@@ -117,12 +121,22 @@ func (fl *flow) path(v ssa.Value, d int) string {
 	case *ssa.Call:
 		return fl.call(x.Common(), d)
 	case *ssa.Phi:
+		// a phi that (transitively) depends on itself is a loop variable: opaque, identified by name
+		if fl.visiting[x] {
+			fl.cyclic[x] = true
+			return "loopvar:" + x.Name()
+		}
+		fl.visiting[x] = true
 		set := map[string]bool{}
 		for _, e := range x.Edges {
 			if e == v {
 				continue
 			}
 			set[fl.path(e, d+2)] = true
+		}
+		delete(fl.visiting, x)
+		if fl.cyclic[x] {
+			return "loopvar:" + x.Name()
 		}
 		var ks []string
 		for k := range set {
@@ -301,5 +315,16 @@ func callsIn(f *ssa.Function, nested bool, targets ...*ssa.Function) []ssa.CallI
 			}
 		})
 	}
+	return out
+}
+
+// allCalls returns every call instruction of f.
+func allCalls(f *ssa.Function) []ssa.CallInstruction {
+	var out []ssa.CallInstruction
+	instrs(f, func(in ssa.Instruction) {
+		if ci, ok := in.(ssa.CallInstruction); ok {
+			out = append(out, ci)
+		}
+	})
 	return out
 }
